@@ -181,7 +181,7 @@ class FeArray(np.ndarray):
 
         # two fields of the same shape need no alignment and no rewrapping decision; this is
         # the overwhelming majority of calls, and it is what keeps small arrays cheap
-        if elementwise and not kwargs and len(inputs) == 2:
+        if elementwise and not kwargs and len(inputs) == 2 and ufunc.nout == 1:
             left, right = inputs
             if (
                 type(left) is FeArray
@@ -424,10 +424,13 @@ class FeArray(np.ndarray):
         "argmin",
         "all",
         "any",
-        "ravel",
     ):
         locals()[_name] = _make_reducer(_name)
     del _name, _make_reducer
+
+    def ravel(self, *args, **kwargs):
+        # flattening never keeps the (Ne, nPg) axes; its argument is an order, not an axis
+        return np.asarray(super().ravel(*args, **kwargs))
 
     def reshape(self, *args, **kwargs):
         new = super().reshape(*args, **kwargs)
